@@ -309,6 +309,11 @@ impl Report {
             });
         }
     }
+    /// (property, key, what) of every violation recorded so far (used by --replay runs, which
+    /// never write evidence).
+    pub fn violation_texts(&self) -> Vec<(String, String, String)> {
+        self.inner.lock().unwrap().violations.iter().map(|v| (v.property.clone(), v.key.clone(), v.what.clone())).collect()
+    }
     pub fn n_violations(&self) -> usize {
         self.inner.lock().unwrap().violations.len()
     }
